@@ -745,3 +745,115 @@ func (fs *fileSet) srcMap() map[string]string {
 	}
 	return m
 }
+
+// checkWriteFail evaluates C13 on the real code for one built template: for
+// every k up to the number of writes of a successful render, a writer failing
+// at its k-th call gets exactly k calls, Run returns the writer's error, what
+// was accepted is the first k-1 chunks of the successful render.
+func checkWriteFail(c *Ctx, t *scriggo.Template, det func() map[string]any, maxK int) {
+	ok := runTemplate(t, 0)
+	c.Count("evaluations")
+	if ok.res != "nil" {
+		if ok.res == "hostpanic:none" {
+			// no converter configured: the recorded finding of C05 (host-panic:no-markdown-converter)
+			c.Count("skipped-no-converter")
+			return
+		}
+		if strings.HasPrefix(ok.res, "hostpanic") {
+			d := det()
+			d["result"] = ok.res
+			c.Fail("host-panic:render", d)
+		}
+		return
+	}
+	for k := 1; k <= ok.calls && k <= maxK; k++ {
+		r := runTemplate(t, k)
+		c.Count("evaluations")
+		c.Count("nontrivial")
+		bad := ""
+		switch {
+		case strings.HasPrefix(r.res, "hostpanic"):
+			bad = "host-panic:writer-failure"
+		case r.res != "e7":
+			bad = "write-error-not-returned"
+		case r.calls != k:
+			bad = "writes-after-failure"
+		case len(r.chunks) != k-1 || strings.Join(r.chunks, "\x00") != strings.Join(ok.chunks[:k-1], "\x00"):
+			bad = "output-not-a-prefix"
+		}
+		if bad != "" {
+			d := det()
+			d["k"] = k
+			d["result"] = r.String()
+			d["successful"] = ok.String()
+			c.Fail(bad, d)
+			return
+		}
+	}
+}
+
+func init() {
+	Register("C13-sweep", func(c *Ctx) {
+		if in := c.ReplayInput(); in != nil {
+			files := scriggo.Files{}
+			if m, ok := in["files"].(map[string]any); ok {
+				for k, v := range m {
+					files[k] = []byte(v.(string))
+				}
+			}
+			name, _ := in["main"].(string)
+			conv, _ := in["conv"].(bool)
+			opts := &scriggo.BuildOptions{Globals: tvalGlobals()}
+			if conv {
+				opts.MarkdownConverter = fakeConv
+			}
+			t, err := scriggo.BuildTemplate(files, name, opts)
+			if err != nil {
+				return
+			}
+			checkWriteFail(c, t, func() map[string]any { return map[string]any{"files": in["files"], "main": name, "conv": conv} }, 200)
+			return
+		}
+		// the Markdown conversion at the return of a rendered file (repaired: used to panic)
+		fixed := []struct {
+			files scriggo.Files
+			main  string
+		}{
+			{scriggo.Files{"index.html": []byte(`<p>{{ render "p.md" }}</p>`), "p.md": []byte("# t {{ v0 }}")}, "index.html"},
+			{scriggo.Files{"index.html": []byte(`{% macro M markdown %}*a*{{ v3 }}{% end %}<p>{{ M() }}</p>{{ M() }}`)}, "index.html"},
+			{scriggo.Files{"index.html": []byte(`{% var m = render "p.md" %}<p>{{ m }}</p>`), "p.md": []byte("# t {{ v0 }}")}, "index.html"},
+		}
+		for _, f := range fixed {
+			t, err := scriggo.BuildTemplate(f.files, f.main, &scriggo.BuildOptions{Globals: tvalGlobals(), MarkdownConverter: fakeConv})
+			if err != nil {
+				c.Fail("fixed-corpus-does-not-build", map[string]any{"error": err.Error()})
+				continue
+			}
+			m := map[string]string{}
+			for k, v := range f.files {
+				m[k] = string(v)
+			}
+			checkWriteFail(c, t, func() map[string]any { return map[string]any{"files": m, "main": f.main, "conv": true} }, 200)
+		}
+		for i := 0; i < c.N; i++ {
+			fs := genSmallFileSet(c, false)
+			conv := c.Rng.Intn(6) != 0
+			t, msg := fs.build(conv)
+			if t == nil {
+				c.Count("build-failures")
+				if strings.HasPrefix(msg, "buildpanic") {
+					c.Fail("host-panic:build", map[string]any{"files": fs.srcMap(), "panic": msg})
+				}
+				continue
+			}
+			c.Count("templates")
+			f := fs.file(fs.main)
+			checkWriteFail(c, t, func() map[string]any {
+				return map[string]any{"files": fs.srcMap(), "main": pathName(f.path, f.fmt), "conv": conv}
+			}, 60)
+			if len(c.Samples) < 2 {
+				c.Sample(map[string]any{"files": fs.srcMap()})
+			}
+		}
+	})
+}
